@@ -262,6 +262,7 @@ def _contains_undef(v):
 class Interp:
     MAX_STEPS = 4000
     MAX_OUT = 20000
+    MAX_VALUE = 2000
     MAX_CALL_DEPTH = 12
     MAX_LOOP_DEPTH = 6
 
@@ -285,6 +286,12 @@ class Interp:
         if self.outlen > self.MAX_OUT:
             raise Budget("output")
         out.append(s)
+
+    def sized(self, v):
+        """Values that keep doubling (``a ~ a`` in nested loops) are outside the budget."""
+        if isinstance(v, (str, list)) and len(v) > self.MAX_VALUE:
+            raise Budget("value size")
+        return v
 
     def to_str(self, v):
         if isinstance(v, Undef):
@@ -366,13 +373,13 @@ class Interp:
             a = self.ev(e[1], sc)
             b = self.ev(e[2], sc)
             try:
-                return a + b if k == "add" else a - b
+                return self.sized(a + b if k == "add" else a - b)
             except TypeError as ex:
                 raise RefError("type", str(ex)) from None
         if k == "cat":
             a = self.ev(e[1], sc)
             b = self.ev(e[2], sc)
-            return self.to_str(a) + self.to_str(b)
+            return self.sized(self.to_str(a) + self.to_str(b))
         if k == "cmp":
             a = self.ev(e[2], sc)
             b = self.ev(e[3], sc)
